@@ -15,7 +15,8 @@ def print_anchors(args=None):
     arg_parser.add_argument(
         "input",
         nargs="?",
-        type=argparse.FileType("r", encoding="utf8"),
+        # drop a byte order mark, as the docutils and sphinx readers do
+        type=argparse.FileType("r", encoding="utf-8-sig"),
         default=sys.stdin,
         help="Input file (default stdin)",
     )
